@@ -4,6 +4,8 @@ from __future__ import annotations
 import ast
 
 from ..origin import OriginAnalysis
+from ..deps import DepAnalysis, clean
+from . import layer_folds as lf
 from ..peval import Evaluator, Model, Unsupported, RaisedInModel
 from ..source import norm, const_value, walk_no_nested, FuncInfo
 from .common import is_name, params, returns_of, calls_in, bind_call
@@ -62,150 +64,52 @@ def r1_immutability(run, tree):
 
 
 # ------------------------------------------------------------------------------------------ R2 precedence
-class LayerModel(Model):
-    def __init__(self, fields, kwargs, key="k"):
-        for k, v in fields.items():
-            setattr(self, k, v)
-        self.kwargs = dict(kwargs)
-        self.key = key
-        self.arrays = {key: "DATA"}
-        self.copies = 0
-
-    def copy(self):
-        c = LayerModel({f: getattr(self, f) for f in OPTION_FIELDS}, self.kwargs, self.key)
-        c.arrays = dict(self.arrays)
-        c.is_copy_of = self
-        return c
-
-    @property
-    def data(self):
-        return self.arrays[self.key]
-
-
-class PrecEval(Evaluator):
-    def __init__(self, tree, fi, env):
-        super().__init__(env)
-        self.tree, self.fi = tree, fi
-
-    def ev_Name(self, node):
-        if node.id in self.env:
-            return self.env[node.id]
-        if node.id in ("None", "True", "False"):
-            return {"None": None, "True": True, "False": False}[node.id]
-        raise Unsupported("name %s" % node.id)
-
-    def call(self, node, func, args, kwargs):
-        if callable(func):
-            try:
-                return func(*args, **kwargs)
-            except TypeError as e:
-                raise Unsupported(str(e))
-        raise Unsupported("call %s" % norm(node.func))
-
-
-def check_merge(run, tree, qual, in_place):
-    fi = tree.func(qual)
-    run.analysed(fi)
-    pn = params(fi)
-    bad = {}
-    n_cases = 0
-    for lv_name, lv in (("unset", None), ("falsy (0)", 0), ("set", "L")):
-        for cv_name, cv in (("unset", None), ("set", "C")):
-            layer = LayerModel({f: lv for f in OPTION_FIELDS}, {"a": "L"})
-            env = {}
-            ev = PrecEval(tree, fi, env)
-            kwargs = {f: (None if cv is None else "C:" + f) for f in OPTION_FIELDS}
-            kwargs.update({"a": "C", "b": "C"})
-            try:
-                out = ev.run_function(fi.node, [layer], kwargs_for(fi, kwargs))
-            except (Unsupported, RaisedInModel) as e:
-                run.unresolved("%s::merge" % qual, fi.where(), "cannot evaluate the merge: %s" % e)
-                return
-            target = layer if in_place else out
-            n_cases += 1
-            if not isinstance(target, LayerModel):
-                bad.setdefault("result", []).append("returns %r" % (target,))
-                continue
-            for f in OPTION_FIELDS:
-                want = lv if lv is not None else (None if cv is None else "C:" + f)
-                got = getattr(target, f, "<missing>")
-                if got != want or (got is None) != (want is None):
-                    bad.setdefault(f, []).append("layer %s / call %s -> %r (required %r)" % (lv_name, cv_name, got, want))
-            if target.kwargs != {"a": "L", "b": "C"}:
-                bad.setdefault("kwargs", []).append("extra options merged to %r (required {'a': 'L', 'b': 'C'})" % target.kwargs)
-            if not in_place:
-                if out is layer:
-                    bad.setdefault("copy", []).append("the input layer itself is returned")
-                if any(getattr(layer, f) != lv for f in OPTION_FIELDS) or layer.kwargs != {"a": "L"}:
-                    bad.setdefault("input", []).append("the input layer was modified")
-    for f in OPTION_FIELDS + ["kwargs"] + ([] if in_place else ["copy", "input"]):
-        run.ob("%s::precedence[%s]" % (qual, f), f not in bad, fi.where(),
-               "; ".join(bad.get(f, [])[:3]) or "layer value wins unless None, in all %d combinations" % n_cases,
-               "a Layer that sets %s (e.g. to 0) is overridden by the call-level value, or the caller's Layer is changed" % f)
-
-
-def kwargs_for(fi, kwargs):
-    """Split the test keyword arguments into named parameters and the **kwargs dict of fi."""
-    a = fi.node.args
-    names = {x.arg for x in a.args + a.kwonlyargs}
-    out = {k: v for k, v in kwargs.items() if k in names}
-    if a.kwarg is not None:
-        out[a.kwarg.arg] = {k: v for k, v in kwargs.items() if k not in names}
-    return out
+def option_flow(tree, q):
+    """D4 on an entry point: what reaches parse_layer's parameters, and where call-level options are used raw.  Labels that
+    come back out of parse_layer are renamed 'merged:<label>', so a later use of the merged layer is not a raw use."""
+    fi = tree.func(q)
+    pl = tree.func("plot/parser.py::parse_layer")
+    an = DepAnalysis(tree)
+    opts = set(OPTION_FIELDS) | ({fi.node.args.kwarg.arg} if fi.node.args.kwarg is not None else set())
+    an.relabel = {pl.qual: (lambda x: "merged:" + x if x.split("[")[0].split(".")[0] in opts else x)}
+    an.analyse(fi)
+    return fi, pl, an
 
 
 def r2_precedence(run, tree):
-    run.rule("C19.R2", "precedence: layer-level options win; call-level options forwarded under their own names",
-             "D7 finite cases + sibling agreement", "", floor=20)
-    check_merge(run, tree, "plot/parser.py::parse_layer", in_place=False)
-    check_merge(run, tree, "core/layer.py::Layer.update", in_place=True)
-    # forwarding at the call sites
-    pl = tree.func("plot/parser.py::parse_layer")
+    run.rule("C19.R2", "precedence: layer-level options win (parse_layer, Layer.update, Layer.copy and the component views folded over "
+             "{unset, falsy, set} x {unset, set}); every entry point hands each call-level option to parse_layer under its own name",
+             "D7 fold of the Layer class + D4 dependence into parse_layer's parameters", "", floor=40)
+    lf.check_merge_fold(run, tree, "plot/parser.py::parse_layer", in_place=False)
+    lf.check_merge_fold(run, tree, "core/layer.py::Layer.update", in_place=True)
+    lf.check_layer_copies(run, tree)
+    lf.check_get_norm(run, tree)
     for q in ENTRIES[:3]:
-        fi = tree.func(q)
+        fi, pl, an = option_flow(tree, q)
+        run.analysed(fi)
         fparams = {a.arg for a in fi.node.args.args + fi.node.args.kwonlyargs}
-        sites = [c for c in calls_in(fi.node) if isinstance(tree.resolve_call(fi, c), FuncInfo) and
-                 tree.resolve_call(fi, c).qual == pl.qual]
-        if not sites:
+        binds = an.bindings.get(pl.qual, [])
+        if not binds:
             run.violated("%s::parse_layer-call" % q, fi.where(), "the entry point no longer merges options with parse_layer",
                          "layer-level options are ignored")
             continue
-        for c in sites:
-            wrong = [(k.arg, norm(k.value)) for k in c.keywords if k.arg in OPTION_FIELDS and not is_name(k.value, k.arg)]
-            fwd_kwargs = any(k.arg is None for k in c.keywords) if fi.node.args.kwarg is not None else True
-            missing = [o for o in OPTION_FIELDS if o in fparams and o not in {k.arg for k in c.keywords}]
-            run.ob("%s::parse_layer-call::forwarding" % q, not wrong and fwd_kwargs and not missing, fi.where(c),
-                   "mis-forwarded: %s; not forwarded: %s; **kwargs forwarded: %s" % (wrong or "none", missing or "none", fwd_kwargs),
+        plkw = pl.node.args.kwarg.arg if pl.node.args.kwarg is not None else None
+        for f in OPTION_FIELDS:
+            if f not in fparams:
+                continue
+            got = set()
+            for b in binds:
+                got |= {x.split("[")[0].split(".")[0] for x in clean(b.get(f, frozenset()))} & set(OPTION_FIELDS)
+                if b.get(f) is None or not clean(b.get(f, frozenset())):
+                    got |= {"<nothing>"}
+            run.ob("%s::parse_layer-call::forwarding[%s]" % (q, f), got == {f}, fi.where(),
+                   "parse_layer's %s receives the call-level option(s) %s" % (f, sorted(got)),
                    "the call-level vmin is used as vmax (or an option never reaches the layers)")
-            # the result replaces the layer variable that is used afterwards
-        # the options handed to the renderer are the merged layer's own keyword options
-        lname = None
-        for st in walk_no_nested(fi.node):
-            if isinstance(st, ast.Assign) and isinstance(st.value, ast.Call) and st.value in sites and isinstance(st.targets[0], ast.Name):
-                lname = st.targets[0].id
-        pvals = [norm(v) for d in walk_no_nested(fi.node) if isinstance(d, ast.Dict) for k, v in zip(d.keys, d.values) if const_value(k) == "params"]
-        if q != ENTRIES[1]:
-            run.ob("%s::renderer-options-from-merged-layer" % q, bool(pvals) and lname is not None and all(v == "%s.kwargs" % lname for v in pvals),
-                   fi.where(), "renderer params = %s (merged layer is `%s`)" % (pvals, lname),
-                   "keyword options set on a Layer (cmap=..., cbar=...) are ignored in favour of the call-level ones")
-        # norm built from the merged layer
-        gn = [c for c in calls_in(fi.node) if isinstance(tree.resolve_call(fi, c), FuncInfo) and
-              tree.resolve_call(fi, c).qual == "plot/parser.py::get_norm"]
-        for c in gn:
-            kws = {k.arg: norm(k.value) for k in c.keywords}
-            ok = all(kws.get(f, "").endswith("." + f) and not kws.get(f, "").startswith(("self.",)) for f in ("norm", "vmin", "vmax"))
-            roots = {kws.get(f, "").split(".")[0] for f in ("norm", "vmin", "vmax")}
-            run.ob("%s::get_norm-from-merged-layer" % q, ok and len(roots) == 1, fi.where(c), "get_norm(%s)" % kws,
-                   "the colour norm ignores the layer's own vmin/vmax/norm")
-    # get_norm passes vmin/vmax straight through in every branch
-    g = tree.func("plot/parser.py::get_norm")
-    run.analysed(g)
-    for c in calls_in(g.node):
-        d = tree.dotted(g.module, c.func)
-        if d and d.startswith("matplotlib.colors."):
-            kws = {k.arg: norm(k.value) for k in c.keywords}
-            run.ob("plot/parser.py::get_norm::%s" % d.split(".")[-1], kws.get("vmin") == "vmin" and kws.get("vmax") == "vmax",
-                   g.where(c), "%s(%s)" % (d.split(".")[-1], kws), "vmin and vmax swapped or dropped for one norm type")
+        if fi.node.args.kwarg is not None and plkw is not None:
+            kw = fi.node.args.kwarg.arg
+            ok = all(kw in {x.split("[")[0] for x in clean(b.get(plkw, frozenset()))} for b in binds)
+            run.ob("%s::parse_layer-call::forwarding[**%s]" % (q, kw), ok, fi.where(), "extra keyword options %s parse_layer" % (
+                "reach" if ok else "do NOT reach"), "cmap=..., cbar=... given to the call are ignored")
 
 
 def r3_hidden_state(run, tree):
@@ -240,27 +144,30 @@ def r3_hidden_state(run, tree):
 
 
 def r4_no_bypass(run, tree):
-    run.rule("C19.R4", "merged options are not bypassed", "def-use rule", "", floor=12)
-    pl = tree.func("plot/parser.py::parse_layer")
+    run.rule("C19.R4", "merged options are not bypassed: a call-level option reaches library calls and comparisons only through the "
+             "merged layer", "D4 dependence with relabelling at parse_layer", "", floor=12)
+    BUILDERS = {"dict", "list", "tuple", "set", "isinstance", "len"}
     for q in ENTRIES[:3]:
-        fi = tree.func(q)
+        fi, pl, an = option_flow(tree, q)
         fparams = {a.arg for a in fi.node.args.args + fi.node.args.kwonlyargs}
-        sites = [c for c in calls_in(fi.node) if isinstance(tree.resolve_call(fi, c), FuncInfo) and
-                 tree.resolve_call(fi, c).qual == pl.qual]
-        forwarded = set()
-        inside = set()
-        for c in sites:
-            for k in c.keywords:
-                if k.arg in OPTION_FIELDS and isinstance(k.value, ast.Name) and k.value.id in fparams:
-                    forwarded.add(k.value.id)
-            for n in ast.walk(c):
-                inside.add(id(n))
-        for opt in sorted(forwarded):
-            uses = [n for n in walk_no_nested(fi.node) if isinstance(n, ast.Name) and n.id == opt and
-                    isinstance(n.ctx, ast.Load) and id(n) not in inside]
-            run.ob("%s::option[%s]::only-through-merged-layer" % (q, opt), not uses, fi.where(uses[0]) if uses else fi.where(),
-                   "call-level `%s` is %s" % (opt, "also read directly at line(s) %s" % sorted({u.lineno for u in uses}) if uses
-                                              else "read only by parse_layer"),
+        for opt in [f for f in OPTION_FIELDS if f in fparams] + ([fi.node.args.kwarg.arg] if fi.node.args.kwarg is not None else []):
+            uses = []
+            for cfi, node, labels, stack in an.lib_calls:
+                if isinstance(node.func, ast.Name) and node.func.id in BUILDERS:
+                    continue
+                if any(x == pl.qual or x.startswith("core/layer.py::Layer.") for x in stack):
+                    continue  # inside the merge itself
+                if opt in {x.split("[")[0].split(".")[0] for x in clean(labels)}:
+                    uses.append((cfi, node))
+            for (line, text), (l, r) in an.compare_sides.items():
+                if any(x == pl.qual or x.startswith("core/layer.py::Layer.") for x in an.compare_where[(line, text)][1]):
+                    continue
+                if opt in {x.split("[")[0].split(".")[0] for x in clean(l) | clean(r)}:
+                    uses.append((None, "%s (line %s)" % (text, line)))
+            where = uses[0][0].where(uses[0][1]) if uses and uses[0][0] is not None else fi.where()
+            run.ob("%s::option[%s]::only-through-merged-layer" % (q, opt), not uses, where,
+                   "call-level `%s` is %s" % (opt, "also used without the layer's own value: %s" % [norm(u[1])[:60] if u[0] is not None else u[1] for u in uses[:3]]
+                                              if uses else "used only through the merged layers"),
                    "a Layer that sets %s is processed with the call-level value instead (e.g. a thick map reduces a layer "
                    "with operation='mean' using the default 'sum')" % opt)
 
